@@ -54,6 +54,9 @@ type coreScript struct {
 	OptLists   [][]coreOpt   `json:"opt_lists"`
 	Customs    []customLevel `json:"customs"`
 	FailSets   [][][]int     `json:"fail_sets"` // each: list of [phase, writer, occurrence]
+	Groups     [][][]int     `json:"groups"`    // group table: members as [key, value]
+	CtxVals    [][][]int     `json:"ctx_vals"`  // context contents: [context key, value]
+	CallArgs   [][][]int     `json:"call_args"` // call-site attribute lists: [key, value]
 	Behaviours [][]coreEvent `json:"behaviours"`
 }
 
@@ -140,6 +143,21 @@ func (r *coreRun) opts(idx int) (res []any) {
 	return
 }
 
+// sharedAttrs returns ONE Attrs value per (key, value), with spare capacity, handed to every logger
+// that asks for it - as a program that builds a common attribute set once would do.
+var coreSharedAttrs = map[[2]int]slog.Attrs{}
+
+func (r *coreRun) sharedAttrs(a, b int) slog.Attrs {
+	k := [2]int{a, b}
+	if v, ok := coreSharedAttrs[k]; ok {
+		return v
+	}
+	v := make(slog.Attrs, 0, 8)
+	v = append(v, r.mkAttr(a, b))
+	coreSharedAttrs[k] = v
+	return v
+}
+
 func (r *coreRun) bools(a int) []bool { return r.sc.BoolLists[a-1] }
 
 func (r *coreRun) layouts(a int) []string {
@@ -147,19 +165,6 @@ func (r *coreRun) layouts(a int) []string {
 		return nil
 	}
 	return []string{r.sc.Layouts[a-1]}
-}
-
-func attrKey(a int) string { return fmt.Sprintf("k%02d", a) }
-
-type ctxKeyT int
-
-func (k ctxKeyT) String() string { return fmt.Sprintf("ck%02d", int(k)) }
-
-func ctxKey(a int) any {
-	if a%2 == 0 {
-		return ctxKeyT(a) // Stringer key
-	}
-	return fmt.Sprintf("ck%02d", a) // string key
 }
 
 func (r *coreRun) opt(o coreOpt) slog.Opt {
@@ -175,7 +180,11 @@ func (r *coreRun) opt(o coreOpt) slog.Opt {
 	case "Level":
 		return slog.WithLevel(slog.Level(o.A))
 	case "Attrs":
-		return slog.WithAttrs(slog.Int(attrKey(o.A), o.B))
+		return slog.WithAttrs(r.mkAttr(o.A, o.B))
+	case "Attrs1":
+		return slog.WithAttrs1(r.sharedAttrs(o.A, o.B))
+	case "SetKV":
+		return slog.With(attrName(o.A), o.B)
 	case "Writer":
 		return slog.WithWriter(getWriter(o.A))
 	case "AddWriter":
@@ -211,12 +220,16 @@ func (r *coreRun) set(l *slog.Entry, k string, a, b int) *slog.Entry {
 	case "Level":
 		return l.SetLevel(slog.Level(a))
 	case "Attrs":
-		return l.SetAttrs(slog.Int(attrKey(a), b))
+		return l.SetAttrs(r.mkAttr(a, b))
+	case "Attrs1":
+		return l.SetAttrs1(r.sharedAttrs(a, b))
+	case "SetKV":
+		return l.Set(attrName(a), b)
 	case "Skip":
 		l.SetSkip(a)
 		return l
 	case "CtxKeys":
-		return l.SetContextKeys(ctxKey(a))
+		return l.SetContextKeys(mkCtxKey(a))
 	case "Writer":
 		return l.SetWriter(getWriter(a))
 	case "AddWriter":
@@ -256,11 +269,15 @@ func (r *coreRun) with(l *slog.Entry, k string, a, b int) *slog.Entry {
 	case "Level":
 		return l.WithLevel(slog.Level(a))
 	case "Attrs":
-		return l.WithAttrs(slog.Int(attrKey(a), b))
+		return l.WithAttrs(r.mkAttr(a, b))
+	case "Attrs1":
+		return l.WithAttrs1(r.sharedAttrs(a, b))
+	case "SetKV":
+		return l.With(attrName(a), b)
 	case "Skip":
 		return l.WithSkip(a)
 	case "CtxKeys":
-		return l.WithContextKeys(ctxKey(a))
+		return l.WithContextKeys(mkCtxKey(a))
 	case "Writer":
 		return l.WithWriter(getWriter(a))
 	case "ErrorWriter":
@@ -314,33 +331,26 @@ func (r *coreRun) exec(ev coreEvent) (rec map[string]any) {
 		r.logF(l, ev, rec)
 	case "LogA":
 		r.logA(l, ev, rec)
+	case "LogM":
+		r.logM(l, ev, rec)
+	case "SetAttrsR":
+		if ev.A == 1 {
+			slog.AddFlags(slog.LattrsR)
+		} else {
+			slog.RemoveFlags(slog.LattrsR)
+		}
 	default:
 		panic("unknown op " + ev.Op)
 	}
 	rec["ret"] = ret
 	rec["dbg"] = is.DebugMode()
 	rec["deflvl"] = int(slog.GetLevel())
+	rec["attrsR"] = slog.IsAnyBitsSet(slog.LattrsR)
 	r.observe(rec)
 	return rec
 }
 
 var coreReSGR = regexp.MustCompile("\x1b\\[[0-9;]*m")
-var coreReIntAttr = regexp.MustCompile(`(?:^|[ ,{])"?k(\d\d)"?[=:](-?\d+)`)
-
-// intAttrs projects the integer attributes with keys kNN out of a record in any format, in
-// printed order, as [[key, value], ...].
-func intAttrs(p []byte) [][]int {
-	txt := coreReSGR.ReplaceAllString(string(p), "")
-	res := [][]int{}
-	for _, m := range coreReIntAttr.FindAllStringSubmatch(txt, -1) {
-		var k, v int
-		fmt.Sscanf(m[1], "%d", &k)
-		fmt.Sscanf(m[2], "%d", &v)
-		res = append(res, []int{k, v})
-	}
-	return res
-}
-
 var coreReSkipName = regexp.MustCompile(`^c/.*\[(-?\d+)\]$`)
 
 func (r *coreRun) normName(nm string) string {
@@ -439,7 +449,7 @@ func (r *coreRun) observe(rec map[string]any) {
 			l.LogAttrs(bg, slog.AlwaysLevel, "attr probe")
 			for _, e := range takeAll() {
 				if e.K == "w" {
-					o["attrs"] = intAttrs(e.payload)
+					o["attrs"] = leavesOf(e.payload)
 					break
 				}
 			}
